@@ -343,6 +343,12 @@ func (f *FuncCtx) countCall(text string, args []Val, e *ast.CallExpr, env *Env) 
 			bound := map[string]Val{}
 			for i, a := range args {
 				bound[fmt.Sprintf("a%d", i+1)] = a
+				// uK: the K-th argument before its conversion to an interface parameter (json.Marshal(v any), ...)
+				if a.Unboxed != nil {
+					bound[fmt.Sprintf("u%d", i+1)] = *a.Unboxed
+				} else {
+					bound[fmt.Sprintf("u%d", i+1)] = a
+				}
 			}
 			for k, cl := range reqs {
 				sc := &specCtx{bound: []map[string]Val{bound}, old: f.entry, pos: sitePos, scope: fr.scope, pcs: f.PC, innerPos: e.Pos()}
@@ -910,7 +916,15 @@ func (f *FuncCtx) callContract(fn *types.Func, c *FuncContract, pc *PkgContracts
 			if usesGhost {
 				continue
 			}
+			// a postcondition that speaks about the callee's local variables (its decoded JSON object, ...) has no
+			// reading at the call site: it is not exported (it is still proved on the callee's own body)
+			ncerr := len(f.cerrs)
 			g := f.evalClause(cl, env, mk(results, pre))
+			if f.clauseErr != "" {
+				f.cerrs = f.cerrs[:ncerr]
+				f.clauseErr = ""
+				continue
+			}
 			f.assume(env, g)
 		}
 		f.specDepth--
